@@ -28,11 +28,11 @@ pub struct Launch {
 }
 
 pub fn gram_bin() -> String {
-    std::env::var("VERIF_GRAM_BIN").unwrap_or_else(|_| "/verif/build/gram-target/release/gram".to_owned())
+    std::env::var("VERIF_GRAM_BIN").unwrap_or_else(|_| format!("{}/build/gram-target/release/gram", crate::infra::verif_dir()))
 }
 
 pub fn scratch_dir() -> String {
-    let d = format!("/verif/build/tmp/{}", std::process::id());
+    let d = format!("{}/build/tmp/{}", crate::infra::verif_dir(), std::process::id());
     std::fs::create_dir_all(&d).ok();
     d
 }
